@@ -22,11 +22,12 @@ import (
 const (
 	kfRenameTrigger   = "C43-rename-table-orphans-trigger"
 	kfShowTriggersDB  = "C43-show-triggers-from-db-ignored"
-	kfDropTableTrig   = "C43-drop-table-keeps-trigger"
 	kfInvalidViewList = "C43-invalid-view-not-listed"
 	kfBacktickColumn  = "C43-backtick-stripped-from-column-name"
 	kfShowIndexTable  = "C43-show-index-stale-table-name"
 )
+
+var allFindings = []string{kfRenameTrigger, kfShowTriggersDB, kfInvalidViewList, kfBacktickColumn, kfShowIndexTable}
 
 var dbs = []string{"d", "e"}
 
@@ -70,7 +71,7 @@ func newMachine(st *stats.Collector) *machine {
 	for _, db := range dbs {
 		m.sess[db] = m.f.NewSession("root", "localhost", db)
 	}
-	for _, id := range []string{kfRenameTrigger, kfShowTriggersDB, kfDropTableTrig, kfInvalidViewList, kfBacktickColumn, kfShowIndexTable} {
+	for _, id := range allFindings {
 		m.avoid[id] = kf.Listed(id)
 	}
 	m.colPool = colNames
@@ -100,7 +101,7 @@ func (m *machine) exec(rt *rapid.T, db, action, q string) bool {
 		m.dead = true
 		m.st.Class("abandoned-panic:" + action)
 		if os.Getenv("C43_DEBUG") != "" {
-			fmt.Printf("PANIC %v\n%s\nHISTORY\n%s;\n%s\n", r.Panic, firstLines(r.Stack, 14), strings.Join(m.history, ";\n"), q)
+			fmt.Printf("PANIC %v\n%s\nHISTORY\n%s;\n%s\n", r.Panic, firstLines(r.Stack, 42), strings.Join(m.history, ";\n"), q)
 		}
 		rt.Logf("PANIC (case abandoned) %s: %v", q, r.Panic)
 		return false
@@ -145,10 +146,7 @@ func step(f func(*rapid.T)) func(*rapid.T) {
 
 func firstLines(s string, n int) string {
 	ls := strings.Split(s, "\n")
-	if len(ls) > n {
-		ls = ls[len(ls)-0:]
-	}
-	return strings.Join(strings.Split(s, "\n")[:min(n*3, len(strings.Split(s, "\n")))], "\n")
+	return strings.Join(ls[:min(n, len(ls))], "\n")
 }
 
 func pick[T any](rt *rapid.T, xs []T, label string) T {
@@ -267,10 +265,6 @@ func (m *machine) dropTable(rt *rapid.T) {
 	}
 	t := pick(rt, cands, "table")
 	trigs, views := m.cat.triggersOn(t), m.cat.viewsOn(t)
-	if len(trigs) > 0 && m.avoid[kfDropTableTrig] {
-		m.st.Excluded("drop-table-with-trigger")
-		rt.Skip("excluded")
-	}
 	if len(views) > 0 && m.avoid[kfInvalidViewList] {
 		m.st.Excluded("drop-table-with-view")
 		rt.Skip("excluded")
@@ -343,6 +337,7 @@ func (m *machine) renameTable(rt *rapid.T) {
 		m.event = "rename-table-with-dependants"
 	}
 	m.dropped = append(m.dropped, "TABLE "+qn(t.DB, t.Name))
+	old := t.Name
 	for _, f := range refs {
 		f.RefTable = nn
 	}
@@ -351,6 +346,31 @@ func (m *machine) renameTable(rt *rapid.T) {
 	}
 	t.Name = nn
 	t.Renamed = true
+	if len(trigs) > 0 {
+		// Signature of C43-rename-table-orphans-trigger, evaluated right after the rename of a
+		// table that has triggers: the trigger listing of that database fails, or still names
+		// the old table. (MySQL moves the triggers along with the table.)
+		if orphanedTriggers(m.sess[t.DB], t.DB, old, trigs) {
+			m.fail(rt, []string{kfRenameTrigger}, "after %s the triggers of the table are orphaned: information_schema.TRIGGERS for schema %s fails or still names table %q", q, t.DB, old)
+		}
+	}
+}
+
+// orphanedTriggers reports whether the TRIGGERS listing of db fails or reports one of trigs on
+// the table's old name.
+func orphanedTriggers(s *fx.Sess, db, oldTable string, trigs []*mTrigger) bool {
+	r := s.Exec("SELECT TRIGGER_NAME, EVENT_OBJECT_TABLE FROM information_schema.TRIGGERS WHERE TRIGGER_SCHEMA = '" + db + "'")
+	if !r.OK() {
+		return true
+	}
+	for _, row := range fx.NormRows(r.Schema, r.Rows) {
+		for _, g := range trigs {
+			if lc(strip(row[0])) == lc(g.Name) && lc(strip(row[1])) == lc(oldTable) {
+				return true
+			}
+		}
+	}
+	return false
 }
 
 func (m *machine) addColumn(rt *rapid.T) {
@@ -890,22 +910,41 @@ func seen2(rows [][]string) map[string]bool {
 
 func inList() string { return "('d', 'e')" }
 
-// sigsNow returns the ids of known findings whose signature matches the current model state.
-func (m *machine) sigsNow() []string {
-	var ids []string
-	for _, t := range m.cat.Tables {
-		for _, ix := range t.Idx {
-			if strings.Contains(strings.Join(ix.Cols, ""), "`") {
-				return append(ids, kfBacktickColumn)
-			}
-		}
-		for _, f := range t.FKs {
-			if strings.Contains(f.RefCol, "`") {
-				return append(ids, kfBacktickColumn)
-			}
+// setsEqual reports whether rows (without duplicates) are exactly the keys of want.
+func setsEqual(rows [][]string, want map[string]bool) bool {
+	got := seen2(rows)
+	if len(got) != len(rows) || len(got) != len(want) {
+		return false
+	}
+	for k := range got {
+		if !want[k] {
+			return false
 		}
 	}
-	return ids
+	return true
+}
+
+func sigIf(cond bool, id string) []string {
+	if cond {
+		return []string{id}
+	}
+	return nil
+}
+
+func noTick(s string) string { return strings.ReplaceAll(s, "`", "") }
+
+// viewInvalid reports whether the base table of v, or a column v selects, no longer exists.
+func (m *machine) viewInvalid(v *mView) bool {
+	t := m.cat.table(v.DB, v.Base)
+	if t == nil {
+		return true
+	}
+	for _, vc := range v.Cols {
+		if t.col(vc) == nil {
+			return true
+		}
+	}
+	return false
 }
 
 func (m *machine) verify(rt *rapid.T) {
@@ -914,30 +953,9 @@ func (m *machine) verify(rt *rapid.T) {
 	}
 	s := m.sess["d"]
 	c := m.cat
-	sigs := m.sigsNow()
-	// orphan triggers / invalid views (signatures of known findings on the model state)
-	invalidView := false
-	for _, v := range c.Views {
-		t := c.table(v.DB, v.Base)
-		if t == nil {
-			invalidView = true
-			continue
-		}
-		for _, vc := range v.Cols {
-			if t.col(vc) == nil {
-				invalidView = true
-			}
-		}
-	}
-	if invalidView {
-		sigs = append(sigs, kfInvalidViewList)
-	}
-	switch m.event {
-	case "rename-table-with-dependants":
-		sigs = append(sigs, kfRenameTrigger)
-	case "drop-table-with-dependants":
-		sigs = append(sigs, kfDropTableTrig)
-	}
+	// Known-finding signatures are attached only to the single comparison each finding affects
+	// (see the places that pass a non-nil list); everywhere else a deviation always fails.
+	var sigs []string
 
 	run := func(q string) ([][]string, bool) {
 		rows, r := m.query(rt, s, q)
@@ -1028,13 +1046,24 @@ func (m *machine) verify(rt *rapid.T) {
 			}
 		}
 	}
+	// signature of C43-backtick-stripped-from-column-name: the listing equals the expected one
+	// with the back-ticks removed from the column names
+	wantStripped := map[string]bool{}
+	for _, t := range c.Tables {
+		for _, ix := range t.Idx {
+			for i, col := range ix.Cols {
+				wantStripped[key(t.DB, t.Name, ix.Name, i+1, noTick(col), nonUnique(ix.Unique))] = true
+			}
+		}
+	}
 	rows, stop = run("SELECT TABLE_SCHEMA, TABLE_NAME, INDEX_NAME, SEQ_IN_INDEX, COLUMN_NAME, NON_UNIQUE FROM information_schema.STATISTICS WHERE TABLE_SCHEMA IN " + inList())
-	if stop || m.compareSets(rt, sigs, "information_schema.STATISTICS (schema|table|index|seq|column|non_unique)", rows, want) {
+	if stop || m.compareSets(rt, sigIf(!setsEqual(rows, want) && setsEqual(rows, wantStripped), kfBacktickColumn), "information_schema.STATISTICS (schema|table|index|seq|column|non_unique)", rows, want) {
 		return
 	}
 
 	// ---- KEY_COLUMN_USAGE ----------------------------------------------------------------
 	want = map[string]bool{}
+	wantStripped = map[string]bool{} // the engine strips back-ticks from REFERENCED_COLUMN_NAME only
 	for _, t := range c.Tables {
 		for _, ix := range t.Idx {
 			if !ix.Unique {
@@ -1042,14 +1071,16 @@ func (m *machine) verify(rt *rapid.T) {
 			}
 			for i, col := range ix.Cols {
 				want[key(t.DB, ix.Name, t.Name, col, i+1, "<null>", "<null>", "<null>")] = true
+				wantStripped[key(t.DB, ix.Name, t.Name, col, i+1, "<null>", "<null>", "<null>")] = true
 			}
 		}
 		for _, f := range t.FKs {
 			want[key(t.DB, f.Name, t.Name, f.Col, 1, f.RefDB, f.RefTable, f.RefCol)] = true
+			wantStripped[key(t.DB, f.Name, t.Name, f.Col, 1, f.RefDB, f.RefTable, noTick(f.RefCol))] = true
 		}
 	}
 	rows, stop = run("SELECT CONSTRAINT_SCHEMA, CONSTRAINT_NAME, TABLE_NAME, COLUMN_NAME, ORDINAL_POSITION, REFERENCED_TABLE_SCHEMA, REFERENCED_TABLE_NAME, REFERENCED_COLUMN_NAME FROM information_schema.KEY_COLUMN_USAGE WHERE TABLE_SCHEMA IN " + inList())
-	if stop || m.compareSets(rt, sigs, "information_schema.KEY_COLUMN_USAGE (schema|constraint|table|column|ordinal|ref_schema|ref_table|ref_column)", rows, want) {
+	if stop || m.compareSets(rt, sigIf(!setsEqual(rows, want) && setsEqual(rows, wantStripped), kfBacktickColumn), "information_schema.KEY_COLUMN_USAGE (schema|constraint|table|column|ordinal|ref_schema|ref_table|ref_column)", rows, want) {
 		return
 	}
 
@@ -1120,10 +1151,15 @@ func (m *machine) verify(rt *rapid.T) {
 		for _, row := range rows {
 			proj = append(proj, []string{row[0], row[1], row[2], row[4]})
 		}
-		sg := sigs
-		if db != "d" {
-			sg = append(append([]string{}, sigs...), kfShowTriggersDB)
+		// signature of C43-show-triggers-from-db-ignored: SHOW TRIGGERS FROM <other db> lists
+		// exactly the triggers of the session's current database instead
+		wantCur := map[string]bool{}
+		for _, g := range c.Triggers {
+			if g.DB == "d" {
+				wantCur[key(g.Name, g.Event, g.Table, g.Timing)] = true
+			}
 		}
+		sg := sigIf(db != "d" && !m.avoid[kfShowTriggersDB] && !setsEqual(proj, want) && setsEqual(proj, wantCur), kfShowTriggersDB)
 		if m.compareSets(rt, sg, q+" [db "+db+"] (trigger|event|table|timing)", proj, want) {
 			return
 		}
@@ -1157,8 +1193,16 @@ func (m *machine) verify(rt *rapid.T) {
 	for _, v := range c.Views {
 		want[key(v.DB, v.Name)] = true
 	}
+	// signature of C43-invalid-view-not-listed: exactly the views whose base table or selected
+	// columns no longer exist are missing from the listing
+	wantValid := map[string]bool{}
+	for _, v := range c.Views {
+		if !m.viewInvalid(v) {
+			wantValid[key(v.DB, v.Name)] = true
+		}
+	}
 	rows, stop = run("SELECT TABLE_SCHEMA, TABLE_NAME FROM information_schema.VIEWS WHERE TABLE_SCHEMA IN " + inList())
-	if stop || m.compareSets(rt, sigs, "information_schema.VIEWS (schema|view)", rows, want) {
+	if stop || m.compareSets(rt, sigIf(!setsEqual(rows, want) && setsEqual(rows, wantValid), kfInvalidViewList), "information_schema.VIEWS (schema|view)", rows, want) {
 		return
 	}
 
@@ -1320,29 +1364,35 @@ func (m *machine) verifyTable(rt *rapid.T, sigs []string, t *mTable) bool {
 	if !r.OK() {
 		return m.fail(rt, sigs, "SHOW INDEX FROM %s failed: %s", name, r)
 	}
-	// listed finding: the Table field of secondary indexes keeps the name the table had when
-	// the index was created; for renamed tables the field is then left out of the comparison
-	tname, from := t.Name, 0
-	isigs := sigs
-	if t.Renamed {
-		isigs = append(append([]string{}, sigs...), kfShowIndexTable)
-		if m.avoid[kfShowIndexTable] {
-			m.st.Excluded("show-index-table-field-of-renamed-table")
-			tname, from = "-", 1
-		}
+	// C43-show-index-stale-table-name: the Table field of secondary indexes keeps the name the
+	// table had when the index was created. While the finding is listed the field is left out
+	// of the comparison for renamed tables; otherwise it is compared, and the signature is
+	// "table was renamed and the listing differs from the expected one in the Table field only".
+	skipTable := t.Renamed && m.avoid[kfShowIndexTable]
+	if skipTable {
+		m.st.Excluded("show-index-table-field-of-renamed-table")
 	}
-	want := map[string]bool{}
+	want, wantRest := map[string]bool{}, map[string]bool{}
 	for _, ix := range t.Idx {
 		for i, col := range ix.Cols {
-			want[key(tname, nonUnique(ix.Unique), ix.Name, i+1, col)[2*from:]] = true
+			want[key(t.Name, nonUnique(ix.Unique), ix.Name, i+1, col)] = true
+			wantRest[key(nonUnique(ix.Unique), ix.Name, i+1, col)] = true
 		}
 	}
-	var proj [][]string
+	var proj, projRest [][]string
 	for _, row := range rows {
-		proj = append(proj, row[from:5])
+		proj = append(proj, row[0:5])
+		projRest = append(projRest, row[1:5])
 	}
-	if m.compareSets(rt, isigs, "SHOW INDEX FROM "+name+" (table|non_unique|key|seq|column)", proj, want) {
-		return true
+	if skipTable {
+		if m.compareSets(rt, nil, "SHOW INDEX FROM "+name+" (non_unique|key|seq|column)", projRest, wantRest) {
+			return true
+		}
+	} else {
+		isigs := sigIf(t.Renamed && !setsEqual(proj, want) && setsEqual(projRest, wantRest), kfShowIndexTable)
+		if m.compareSets(rt, isigs, "SHOW INDEX FROM "+name+" (table|non_unique|key|seq|column)", proj, want) {
+			return true
+		}
 	}
 	// SHOW CREATE TABLE, compared on its structure
 	res := s.Exec("SHOW CREATE TABLE " + name)
